@@ -83,6 +83,11 @@ macro_rules! downcast_op {
             DataType::BinaryView => {
                 $op($array.as_any().downcast_ref::<BinaryViewArray>().unwrap()$(, $arg)*)
             }
+            // A column declared as a dictionary of fixed size binary values may also be
+            // written from a plain (logically equivalent) fixed size binary array
+            DataType::FixedSizeBinary(_) => {
+                $op($array.as_any().downcast_ref::<FixedSizeBinaryArray>().unwrap()$(, $arg)*)
+            }
             DataType::Dictionary(key, value) => match value.as_ref() {
                 DataType::Utf8 => downcast_dict_op!(key, StringArray, $array, $op$(, $arg)*),
                 DataType::LargeUtf8 => {
@@ -551,12 +556,16 @@ impl ColumnValueEncoder for ByteArrayEncoder {
             // walk through dict keys on every chunk also measured ~+30-80%
             // slower than `main`.)
             DataType::Dictionary(_, _) => indices.len(),
-            // Every byte-array type `ByteArrayEncoder` is constructed for
-            // has an explicit arm above. A `Dictionary(value = FixedSizeBinary)`
-            // column hits the `Dictionary(_, _)` arm (its `values.data_type()`
-            // is `Dictionary`), and a bare `FixedSizeBinary` column is routed
-            // to the generic column writer, never this encoder — so no other
-            // type can reach here.
+            // A bare `FixedSizeBinary` array reaches this encoder when the column
+            // was declared as `Dictionary(value = FixedSizeBinary)` and a batch
+            // carries the logically equivalent plain array. All values have the
+            // same, known size so the bound (boundary value included) is a division.
+            DataType::FixedSizeBinary(size) => {
+                let value_size = *size as usize + std::mem::size_of::<u32>();
+                indices.len().min(byte_budget / value_size + 1)
+            }
+            // Every other byte-array type `ByteArrayEncoder` is constructed for
+            // has an explicit arm above, so no other type can reach here.
             data_type => unreachable!("ByteArrayEncoder cannot be constructed for {data_type:?}"),
         };
         Some(count)
